@@ -51,6 +51,11 @@ def mk_key(i, keytype):
     return (i, "t")
 
 
+def mk_val(v):
+    """values: small ints (0 is falsy) with None and the empty string among the frequent ones"""
+    return None if v == 3 else "" if v == 2 else v
+
+
 def drive(ctx, kind, cap, ops, keytype="int"):
     with FuelSession(FUEL) as fs:
         _drive(ctx, fs, kind, cap, ops, keytype)
@@ -183,10 +188,10 @@ def _drive(ctx, fs, kind, cap, ops, keytype):
             op = o[0]
             k = mk_key(o[1], keytype) if len(o) > 1 and isinstance(o[1], int) else None
             if op == "set":
-                store("store", k, o[2])
+                store("store", k, mk_val(o[2]))
             elif op in ("get", "getd", "setdefault"):
                 if k in d:
-                    r = run(op, lambda: c[k] if op == "get" else c.get(k, "D") if op == "getd" else c.setdefault(k, o[2]))
+                    r = run(op, lambda: c[k] if op == "get" else c.get(k, "D") if op == "getd" else c.setdefault(k, mk_val(o[2])))
                     ctx.need(r == d[k], "%s/%s/stale-or-wrong-value" % (name, op),
                              lambda: "lookup of %r returned %r, the value most recently stored is %r" % (k, r, d[k]))
                     lookup_hit(k)
@@ -201,7 +206,7 @@ def _drive(ctx, fs, kind, cap, ops, keytype):
                     r = run(op, lambda: c.get(k, "D"))
                     ctx.need(r == "D", "%s/get/default" % name, "get(absent, default) returned %r" % (r,))
                 else:
-                    store("setdefault", k, o[2], via_setdefault=True)
+                    store("setdefault", k, mk_val(o[2]), via_setdefault=True)
             elif op == "del":
                 if k in d:
                     run(op, lambda: c.__delitem__(k))
@@ -306,7 +311,7 @@ def _drive(ctx, fs, kind, cap, ops, keytype):
                 st_["restored"].clear()
                 cands = {(p, empty) for p, _ in cands}
             elif op == "update":
-                pairs = [(mk_key(a, keytype), b) for a, b in o[1]]
+                pairs = [(mk_key(a, keytype), mk_val(b)) for a, b in o[1]]
                 upd = dict(pairs)
                 # MutableMapping.update stores one by one in the order of the argument
                 # (run through the real update once: content is checked below, the model applies the same stores)
